@@ -106,6 +106,19 @@ def fuzz_structure(r, nested, edits):
     return t
 
 
+_MUT_OPTS = None
+
+
+def mutator_options():
+    global _MUT_OPTS
+    if _MUT_OPTS is None:
+        from vlib import dd
+        ns = dd.load()
+        _MUT_OPTS = sorted(opt for (_, _, opt, _) in
+                           dd.all_mutator_classes(ns).values())
+    return _MUT_OPTS
+
+
 def make_input(r, kind):
     if kind == 'wellformed':
         s = workload.small_script(r, r.choice(['tiny', 'small']))
@@ -512,6 +525,15 @@ def shard(args):
                                   '--arithmetic'], r.randint(1, 5))
             if r.random() < 0.15:
                 opts += ['-v']
+            # output formats (the output file is written by three different
+            # writers) and, in a fifth of the runs, a random handful of
+            # mutators only (so that late mutators meet inputs that the usual
+            # first ones would have changed before)
+            opts += workload.format_options(r)
+            if r.random() < 0.2:
+                opts += ['--disable-all'] + [
+                    f'--{o}' for o in r.sample(mutator_options(),
+                                               r.randint(1, 6))]
             # diagnostic options: they only add output, the run must go on
             # as without them
             c = r.random()
